@@ -17,14 +17,21 @@ PHYSICAL = ["scene_generation", "photon_collection", "phasing", "charge_generati
 
 TRUSTED = [
     "translator/c01.py (MODEL_GROUPS tuple, constructor keyword -> attribute -> property wiring, what run_pipeline / "
-    "model_group_names / __iter__ iterate, ModelGroup.__iter__ guard, ModelFunction.__call__ argument passing; "
-    "AST literal cross-checked against the imported class; fails closed on any other shape)",
-    "correspondence harness: harness/props/c01.py generators, harness/drivers/c01.py, probes/verif_probes.record "
-    "(name = detector.current_running_model_name, step = detector.pipeline_count, kwargs deep-copied), "
-    "dicts compared as key-sorted association lists, JSON transport of ints/strings/bools/None/nested lists",
+    "model_group_names / __iter__ iterate, the conditions under which run_pipeline skips a group, ModelGroup.__iter__ "
+    "guard, what ModelGroup.run loops over, ModelFunction.__call__ argument passing, attributes set by "
+    "ModelGroup.__init__ vs restored by __setstate__, how exposure.run_pipeline reads detector.intermediate; AST "
+    "literal cross-checked against the imported class; fails closed on any other shape)",
+    "correspondence harness: harness/props/c01.py generators and the Python mirror used to generate valid histories, "
+    "harness/drivers/c01.py (which public calls realise each operation of a history), probes/verif_probes.record "
+    "(name = detector.current_running_model_name, step = detector.pipeline_count, kwargs deep-copied) and "
+    "verif_probes_c01.grow, dicts compared as key-sorted association lists, JSON transport of "
+    "ints/strings/bools/None/nested lists/dicts",
     "modelled, not verified: PyYAML SafeLoader (mapping -> dict with unique keys), Python keyword binding of "
-    "DetectionPipeline(**dct), xarray DataTree child order = insertion order (debug nodes), copy.deepcopy of the "
-    "processor in observation mode, pygmo's choice of fitness evaluations in calibration",
+    "DetectionPipeline(**dct), xarray DataTree child order = insertion order (debug nodes), that copy.deepcopy / "
+    "pickle of a processor or pipeline yields an independent equal value (the specification of copying: "
+    "Model/PipelineHist.v treats every pipeline object as a value; sharing would show as a correspondence break), "
+    "which run lists ProductMode / SequentialMode produce from the parameters (C05), dask's choice of task order and "
+    "repetition under the synchronous scheduler, pygmo's choice of fitness evaluations in calibration",
 ]
 
 # ------------------------------------------------------------------------------------------ generation
@@ -207,21 +214,24 @@ def gen_cases(ctx: Ctx, n_specs: int, salt="cases"):
     r = ctx.rng(salt)
     cases = []
     for i in range(n_specs):
-        rich = i % 4 == 1
+        rich = i % 3 == 1
         spec = gen_spec(r, dense=(i % 11 == 0), containers=0.35 if rich else 0.0, grow=0.3 if rich else 0.0)
         steps = r.choice([1, 2, 2, 3, 3, 4])
         det = r.choice(DETS) if i % 2 else "ccd"
         combos = [("yaml", False), ("yaml", True), ("python", False), ("python", True)]
         if ctx.quick and i % 3:
             combos = r.sample(combos, 2)
+        nd = r.random() < 0.3
         for variant, debug in combos:
-            cases.append(dict(spec=spec, steps=steps, variant=variant, det=det, mode="exposure", debug=debug))
-        if r.random() < 0.5:
+            cases.append(dict(spec=spec, steps=steps, variant=variant, det=det, mode="exposure", debug=debug, nd=nd))
+        if r.random() < 0.75:
             got = gen_params(r, spec)
             if got:
                 params, omode = got
+                # SequentialMode under dask is a known defect of C05 (parameters zipped): product mode only
                 cases.append(dict(spec=spec, steps=r.choice([1, 2, 3]), variant=r.choice(["yaml", "python"]), det=det,
-                                  mode="observation", debug=False, params=params, omode=omode))
+                                  mode="observation", debug=False, params=params, omode=omode, nd=nd,
+                                  dask=(omode == "product" and r.random() < 0.5)))
     return cases
 
 
@@ -297,6 +307,10 @@ def fixed_cases():
         cases.append(dict(spec=rich, steps=2, variant=variant, det="mkid", mode="observation", debug=False, omode="product",
                           params=[dict(group="photon_collection", model="light", path=["opt", "lst", 1, "n"], values=[7]),
                                   dict(group="charge_generation", model="frames", path=["x_0"], values=[8, 9])]))
+        cases.append(dict(spec=rich, steps=2, variant=variant, det="cmos", mode="observation", debug=False, omode="product",
+                          dask=True,
+                          params=[dict(group="photon_collection", model="light", path=["opt", "level"], values=[1, 2]),
+                                  dict(group="charge_generation", model="frames", path=["x_0"], values=[8, 9])]))
     return cases
 
 
@@ -324,7 +338,9 @@ def calibration_cases(ctx: Ctx, n: int):
         # the fitted output must exist: one writer model fills `pixel` (it is not part of the compared trace)
         spec.append(["charge_collection", [dict(WRITER)]])
         r.shuffle(spec)
-        out.append(dict(spec=spec, steps=1, variant="yaml", det=DETS[k % 4], mode="calibration", debug=False))
+        # odd cases: a time-domain target (several readout steps per evaluation)
+        out.append(dict(spec=spec, steps=(1 if k % 2 == 0 else r.choice([2, 3])), variant="yaml", det=DETS[k % 4],
+                        mode="calibration", debug=False))
     return out
 
 
@@ -390,6 +406,8 @@ class Mirror:
             lasts = [path_of(q)[-1] for q in op["params"]]
             nested = any(len(path_of(q)) > 1 for q in op["params"])
             if nested and (len(set(map(str, lasts))) != len(lasts) or op.get("omode") != "product"):
+                return False
+            if op.get("dask") and op.get("omode") != "product":
                 return False
             for q in op["params"]:
                 pth = path_of(q)
@@ -484,7 +502,7 @@ def hist_run_cases(case, inplace=True):
                             m["func"] = RECORD
             out.append(dict(spec=spec, steps=op["steps"], variant=case["variant"], det=case.get("det", "ccd"),
                             mode=op["mode"], debug=bool(op.get("debug")), params=op.get("params"),
-                            omode=op.get("omode")))
+                            omode=op.get("omode"), dask=bool(op.get("dask")), nd=bool(op.get("nd"))))
         mir.apply(op)
     return out
 
@@ -513,8 +531,9 @@ def gen_hist(r, quick=True, pickle_ok=False):
             if got:
                 params, omode = got
                 return dict(op="run", obj=obj, mode="observation", steps=r.choice([1, 1, 2]), debug=False,
-                            params=params, omode=omode)
-        return dict(op="run", obj=obj, mode="exposure", steps=r.choice([1, 2, 2, 3]), debug=r.random() < 0.4)
+                            params=params, omode=omode, dask=(omode == "product" and r.random() < 0.3))
+        return dict(op="run", obj=obj, mode="exposure", steps=r.choice([1, 2, 2, 3]), debug=r.random() < 0.4,
+                    nd=r.random() < 0.25)
 
     def gen_config_op(obj):
         cfg = mir.store[obj]
@@ -630,6 +649,10 @@ def fixed_hist_cases(pickle_ok=False, thorough=False):
                 _run(mode="observation", steps=2, omode="product",
                      params=[dict(group="photon_collection", model="light", path=["opt", "lst", 1, "n"], values=[7, 8])]),
                 _run(steps=2), _run(steps=1)]))
+        out.append(dict(kind="hist", spec=rich, variant=variant, det="ccd", ops=[
+            _run(mode="observation", steps=2, omode="product", dask=True,
+                 params=[dict(group="photon_collection", model="light", path=["opt", "level"], values=[1, 2, 3])]),
+            _run(steps=2)]))
         # copies: what is done to a copy never shows in the source, and vice versa
         for how in ["deep", "processor"] + (["pickle"] if pickle_ok else []):
             out.append(dict(kind="hist", spec=rich, variant=variant, det="ccd", ops=[
@@ -646,7 +669,47 @@ def fixed_hist_cases(pickle_ok=False, thorough=False):
             out.append(dict(kind="hist", spec=cal, variant="yaml", det=det, ops=[
                 _run(mode="calibration", steps=1), _run(steps=2),
                 dict(op="enable", obj=0, group="photon_collection", index=0, value=False, via="attr"),
-                _run(mode="calibration", steps=1), _run(steps=1)]))
+                _run(mode="calibration", steps=2), _run(steps=1)]))
+    return out
+
+
+def enum_hist_cases(depth=3):
+    """Exhaustive small scope (thorough tier): EVERY sequence of at most `depth` operations from a small alphabet
+    over a 2-group / 3-model pipeline (one model grows its list argument), followed by a run of every object."""
+    base = [["charge_generation", [_m("a", True, {"a": 1}), _m("b", False, {"b": [1]}, GROW)]],
+            ["readout_electronics", [_m("c", True, {"opt": {"level": 1}})]]]
+
+    def alphabet(mir):
+        ops = [("R0", lambda: _run(obj=0, steps=2)), ("M0", lambda: dict(op="models", obj=0, group="charge_generation", sel=[1, 0])),
+               ("C", lambda: dict(op="copy", obj=0, how=("deep", "pickle", "processor")[len(mir.store) % 3])),
+               ("S0", lambda: dict(op="setarg", obj=0, group="readout_electronics", model="c", path=["opt", "level"], value=9))]
+        for tag, g, i in (("Ta", "charge_generation", 0), ("Tb", "charge_generation", 1), ("Tc", "readout_electronics", 0)):
+            ops.append((tag, lambda g=g, i=i: dict(op="enable", obj=0, group=g, index=i,
+                                                   value=not mir.store[0][g][i]["enabled"], via="attr")))
+        if len(mir.store) > 1:
+            ops.append(("R1", lambda: _run(obj=1, steps=1)))
+            ops.append(("T1", lambda: dict(op="enable", obj=1, group="charge_generation", index=1,
+                                           value=not mir.store[1]["charge_generation"][1]["enabled"], via="attr")))
+        return ops
+
+    out = []
+
+    def rec(prefix, mir, d):
+        if prefix:
+            ops = list(prefix) + [_run(obj=o, steps=1, debug=(o == 0 and len(prefix) % 2 == 0)) for o in range(len(mir.store))]
+            out.append(dict(kind="hist", spec=base, variant=("yaml", "python")[len(out) % 2], det=DETS[len(out) % 4],
+                            ops=ops, sweep="enum"))
+        if d == 0:
+            return
+        for _, mk in alphabet(mir):
+            op = mk()
+            if not mir.valid(op):
+                continue
+            m2 = copy.deepcopy(mir)
+            m2.apply(op)
+            rec(prefix + [op], m2, d - 1)
+
+    rec([], Mirror(base), depth)
     return out
 
 
@@ -749,6 +812,14 @@ def _mirror_violates_1(case, obs, nodes_exact):
             return bool(t)
         return not (len(t) >= len(exp) and len(t) % len(exp) == 0
                     and all(t[i:i + len(exp)] == exp for i in range(0, len(t), len(exp))))
+    if case["mode"] == "observation" and case.get("dask"):
+        per = [mirror_trace(case["spec"], case["steps"], ovs) for ovs in runs_of(case)]
+        t = obs["trace"]
+        n = len(per[0]) if per else 0
+        if n == 0:
+            return bool(t)
+        blocks = [t[i:i + n] for i in range(0, len(t), n)]
+        return not (all(b in per for b in blocks) and all(e in blocks for e in per))
     if obs["trace"] != exp:
         return True
     if case["mode"] == "exposure" and case.get("debug"):
@@ -818,6 +889,8 @@ def classify(case, obs):
     t = obs["trace"]
     if exp is None:
         return "calibration_subtrace", {}
+    if case["mode"] == "observation" and case.get("dask"):
+        return "dask_runs", {}
     key = lambda e: json.dumps(e, sort_keys=True)  # noqa: E731
     if t == exp:
         return "debug_capture", {}
@@ -921,7 +994,8 @@ def cmode(case) -> str:
         return f"(Exposure {core.cbool(bool(case.get('debug')))})"
     if case["mode"] == "calibration":
         return "Calibration"
-    return "(Observation " + core.clist(core.clist(coverride(o) for o in ovs) for ovs in runs_of(case)) + ")"
+    ctor = "ObservationDask" if case.get("dask") else "Observation"
+    return f"({ctor} " + core.clist(core.clist(coverride(o) for o in ovs) for ovs in runs_of(case)) + ")"
 
 
 GROUP_CTOR = dict(zip(PHYSICAL, ["SceneGeneration", "PhotonCollection", "Phasing", "ChargeGeneration",
@@ -992,7 +1066,8 @@ def emit_file(pairs) -> str:
 
 
 def case_key(c):
-    return json.dumps({k: c.get(k) for k in ("spec", "steps", "mode", "params", "omode", "det", "ops")}, sort_keys=True)
+    return json.dumps({k: c.get(k) for k in ("spec", "steps", "mode", "params", "omode", "dask", "nd", "det", "ops")},
+                      sort_keys=True)
 
 
 def nontrivial(c) -> bool:
@@ -1059,14 +1134,16 @@ def correspondence(ctx: Ctx, cases, tag="c", per=40):
             ctx.count("model_calls_compared", sum(len(x.get("trace", [])) for x in runs))
             ctx.dist("history_ops", len(c["ops"]))
             for op in c["ops"]:
-                ctx.dist("op", op["op"] + (":" + op["mode"] + ("/debug" if op.get("debug") else "") if op["op"] == "run"
+                ctx.dist("op", op["op"] + (":" + op["mode"] + ("/debug" if op.get("debug") else "")
+                                           + ("/dask" if op.get("dask") else "") if op["op"] == "run"
                                            else ":" + op["how"] if op["op"] == "copy" else
                                            ":nested" if op["op"] == "setarg" and len(path_of(op)) > 1 else ""))
             ctx.dist("outcome", "ran" if all(not x.get("error") for x in runs) else "error")
         else:
             ctx.count("model_calls_compared", len(o.get("trace", [])))
             ctx.dist("mode", c["mode"] + ("/debug" if c.get("debug") else "") +
-                     ("/" + c.get("omode", "sequential") if c["mode"] == "observation" else ""))
+                     ("/" + c.get("omode", "sequential") + ("/dask" if c.get("dask") else "")
+                      if c["mode"] == "observation" else ""))
             ctx.dist("steps", c["steps"])
             ctx.dist("outcome", o.get("error") or "ran")
     return mism, viol, pairs
@@ -1304,7 +1381,12 @@ def run(ctx: Ctx):
     cases += pair_cases(full=not ctx.quick)
     cases += malformed_cases(ctx)
     if not ctx.quick:
-        cases += calibration_cases(ctx, 6)
+        cases += calibration_cases(ctx, 8)
+        enum = enum_hist_cases(3)
+        ctx.cov["exhaustive_histories"] = (f"{len(enum)} histories: every sequence of <= 3 operations from "
+                                           "{run, reverse models, copy, set nested argument, flip each of 3 switches, "
+                                           "run copy, flip on copy} on a 2-group / 3-model pipeline, then a run of every object")
+        cases += enum
     mism, viol, pairs = correspondence(ctx, cases)
 
     keys = {case_key(c) for c, _ in pairs if nontrivial(c)}
@@ -1392,20 +1474,37 @@ META = dict(
         "loader: the trace is strictly sorted by (step, rank in the physical order written from the property text, "
         "position in the user's list); every enabled position executes exactly once per step and disabled models / "
         "absent groups never (position-based, so duplicate names are covered); every call carries exactly the configured "
-        "arguments; permuting the YAML keys gives the same pipeline; YAML = Python construction; debug capture does not "
-        "change the trace. The physical literal is proved equal to MODEL_GROUPS regenerated from the source on every run, "
-        "together with the constructor keyword -> attribute -> property wiring and what run_pipeline iterates. That the "
-        "Python code behaves as the model is established by correspondence (testing): generated pipelines built from "
-        "shuffled-key YAML through pyxel.load and from Python objects, run in exposure (debug on/off), sequential "
-        "observation and (thorough) calibration, the recorded calls judged inside Coq against model and specification, "
-        "plus the sweep of all 45 group pairs x 4 enabled patterns."),
+        "arguments (for a model that changes its container arguments in place: including its own earlier changes, and the "
+        "state-passing execution of the object is proved equal to that closed form, C01_execution_is_trace); permuting the "
+        "YAML keys gives the same pipeline; YAML = Python construction; debug capture does not change the trace and every "
+        "exposure completes with debug on or off (C01_debug_runs, full statement since the repair of C01-debug-empty-run). "
+        "Configuration histories (Model/PipelineHist.v: runs in exposure / observation / calibration mode, switches, "
+        "Processor.set on arguments incl. keys inside dict / list values, reordering / dropping / inserting models, deep "
+        "copies and pickle round trips of pipeline objects), by induction over the operation list: every run is a run of "
+        "the configuration its object has AT THAT TIME (C01_history_run, C01_history_each_run), an operation that does "
+        "not write an object leaves it unchanged (frame), a changed switch is honoured by the next run, copies are "
+        "isolated from their source, observation / calibration never change the user's object. The physical literal is "
+        "proved equal to MODEL_GROUPS regenerated from the source on every run, together with the constructor wiring, "
+        "what run_pipeline iterates and that it skips a group only when absent (no detector-dependent branch), what "
+        "ModelGroup.run loops over, and the source side of the two repairs. That the Python code behaves as the model "
+        "is established by correspondence (testing): generated pipelines on all four detector types, built from "
+        "shuffled-key YAML through pyxel.load and from Python objects, run in exposure (debug on/off), observation "
+        "(sequential, product, product under dask) and (thorough) calibration incl. time-domain targets, and generated "
+        "histories of operations on live pipeline objects; the recorded calls are judged inside Coq against model and "
+        "specification; plus the sweep of all 45 group pairs x 4 enabled patterns and (thorough) every history of <= 3 "
+        "operations over a small alphabet."),
     level_note=(
-        "Trusted: Coq kernel + vm_compute; translator/c01.py; the correspondence harness and the recording probe. "
+        "Trusted: Coq kernel + vm_compute; translator/c01.py; the correspondence harness and the two probes. "
         "All theorems are closed under the global context (no axioms). Not carried by the theorems: that "
         "func(detector, **arguments) receives *the* processor's detector (checked by identity on the implementation "
-        "side only), PyYAML, Python keyword binding, xarray DataTree child order, deepcopy in observation mode, "
-        "pygmo's choice of evaluations (only per-evaluation sub-traces are compared), dask observation mode."),
-    technique="Coq proof (induction over groups/steps, StronglySorted, Permutation) + regenerated group-order/wiring tables "
-              "+ in-Coq correspondence/spec evaluation of recorded traces",
+        "side only), PyYAML, Python keyword binding, xarray DataTree child order, that deepcopy / pickle produce "
+        "independent equal values (value semantics of pipeline objects is the specification; the implementation is "
+        "compared against it by the history cases), which runs an observation's parameter mode requests (C05), "
+        "pygmo's choice of evaluations (only per-evaluation sub-traces are compared), dask's task order / repetition "
+        "(every block must be one requested run and every requested run must occur), dask with a threaded or "
+        "distributed scheduler."),
+    technique="Coq proof (induction over groups/steps and over operation lists, StronglySorted, Permutation, frame lemmas) + "
+              "regenerated group-order/wiring/iteration tables + in-Coq correspondence/spec evaluation of recorded traces "
+              "and histories",
     design_ref="DESIGN.md section 6, C01",
 )
